@@ -46,6 +46,10 @@ func c08Cases(tier string, seed int64) []core.Case {
 			}
 		}
 	}
+	for _, mp := range []int{0, 4} {
+		mp := mp
+		cases = append(cases, core.Case{ID: fmt.Sprintf("slow-flushop/maxpend=%d", mp), Run: func(ctx *core.Ctx) core.Result { return c08SlowFlush(ctx.Seed, mp) }})
+	}
 	reps := 2
 	if tier == "thorough" {
 		reps = 40
@@ -373,5 +377,96 @@ func c08Shared(seed int64, k, maxpend, reps int) core.Result {
 		}
 	}
 	c.Hangup()
+	return res
+}
+
+// c08SlowFlush: a Tflush whose FlushOp call is slow inside the implementation is a blocked request like any other:
+// requests with other tags, on the same and on another connection, must be answered meanwhile.
+func c08SlowFlush(seed int64, maxpend int) core.Result {
+	var res core.Result
+	s, e, other, ok := c08setup(Config{Dotu: true, Msize: 8192, Maxpend: maxpend, Flush: true})
+	if !ok {
+		res.Inconclusive = "c08: setup failed"
+		return res
+	}
+	c := e.c
+	for round := 0; round < 12 && len(res.Violations) == 0; round++ {
+		f := uint32(300 + 2*round)
+		if !e.ok(&wire.Msg{Type: wire.Twalk, Fid: e.root, Newfid: f, Wname: []string{"f"}}) {
+			res.Inconclusive = "c08: setup walk failed"
+			break
+		}
+		target := &wire.Msg{Type: wire.Tstat, Fid: f, Tag: e.next()}
+		tp := script.NewPlan()
+		tp.Gate = make(chan struct{})
+		tp.Entered = make(chan struct{})
+		s.Ops.SetPlan(c.ID, target.Tag, tp)
+		s.Ops.SetFlushMode(c.ID, target.Tag, "ignore")
+		fgate := make(chan struct{})
+		s.Ops.SetFlushGate(c.ID, target.Tag, fgate)
+		_ = c.Send(target)
+		select {
+		case <-tp.Entered:
+		case <-time.After(W):
+			res.Inconclusive = "c08: target never started"
+			return res
+		}
+		flush := &wire.Msg{Type: wire.Tflush, Oldtag: target.Tag, Tag: e.next()}
+		seq0 := s.Log.Seq()
+		_ = c.Send(flush)
+		// wait until the implementation's Flush has been called (it then blocks on the gate)
+		waitFor(W, func() bool {
+			for _, ev := range s.Log.Snapshot(seq0) {
+				if ev.Kind == "flushcb" {
+					return true
+				}
+			}
+			return false
+		})
+		res.Evals++
+		var free []*wire.Msg
+		for i := 0; i < 1+round%4; i++ {
+			free = append(free, &wire.Msg{Type: wire.Tstat, Fid: e.root, Tag: e.next()})
+		}
+		_ = c.Send(free...)
+		om := &wire.Msg{Type: wire.Tstat, Fid: other.root, Tag: other.next()}
+		_ = other.c.Send(om)
+		late := false
+		deadline := time.Now().Add(W)
+		for _, m := range free {
+			if rp, err := c.WaitTag(m.Tag, time.Until(deadline)); err != nil || rp.Msg == nil {
+				late = true
+			}
+		}
+		_, oerr := other.c.WaitTag(om.Tag, time.Until(deadline))
+		close(fgate)
+		close(tp.Gate)
+		det := map[string]interface{}{"maxpend": maxpend, "round": round}
+		if late {
+			ok := true
+			for _, m := range free {
+				if rp, err := c.WaitTag(m.Tag, W); err != nil || rp.Msg == nil {
+					ok = false
+				}
+			}
+			if ok {
+				res.Violate(fmt.Sprintf("C08;head-of-line;slow-flushop;maxpend=%d", maxpend), "requests with other tags were answered only after a Tflush blocked in the implementation's FlushOp was released", det)
+			} else {
+				res.Inconclusive = "c08: requests never answered"
+			}
+		}
+		if oerr != nil {
+			if rp, err := other.c.WaitTag(om.Tag, W); err == nil && rp.Msg != nil {
+				res.Violate(fmt.Sprintf("C08;head-of-line;slow-flushop;other-conn;maxpend=%d", maxpend), "a request on another connection waited for a Tflush blocked in the FlushOp", det)
+			}
+		}
+		c.WaitTag(target.Tag, W)
+		c.WaitTag(flush.Tag, W)
+		c.Quiesce(W)
+		res.Sig(fmt.Sprintf("slowflush|mp=%d|free=%d|round=%d", maxpend, len(free), round))
+	}
+	res.Sample(map[string]interface{}{"scenario": "Tflush blocked inside FlushOp while other requests must progress", "maxpend": maxpend})
+	e.c.Hangup()
+	other.c.Hangup()
 	return res
 }
